@@ -497,7 +497,7 @@ func isFreshBuffer(v ssa.Value) bool {
 		return true
 	}
 	if sl, ok := v.(*ssa.Slice); ok {
-		if al, ok := sl.X.(*ssa.Alloc); ok && al.Comment == "makeslice" && al.Heap {
+		if al, ok := sl.X.(*ssa.Alloc); ok && al.Comment == "makeslice" {
 			return true
 		}
 	}
